@@ -111,14 +111,14 @@ Definition cco_some (c : cslot) : bool := match c with CNone => false | _ => tru
 Definition hnd_some (h : option nat) : bool := match h with Some _ => true | None => false end.
 
 (* the armed / cancelled timer entry with the smallest deadline among ids < k *)
-Fixpoint min_entry (t : nat -> tmst) (k : nat) : option (nat * Z) :=
+Fixpoint min_entry (t : nat -> tmst) (d : nat -> Z) (k : nat) : option (nat * Z) :=
   match k with
   | O => None
   | S k' =>
-      let r := min_entry t k' in
+      let r := min_entry t d k' in
       match t k' with
-      | TmArmed dl | TmCanc dl =>
-          match r with Some (_, d0) => if d0 <=? dl then r else Some (k', dl) | None => Some (k', dl) end
+      | TmArmed | TmCanc =>
+          match r with Some (_, d0) => if d0 <=? d k' then r else Some (k', d k') | None => Some (k', d k') end
       | _ => r end
   end.
 
@@ -333,7 +333,7 @@ Definition plan (e : list Z) : P :=
     | 50 =>
         if (obj =? oslot x0) && negb (oslot x0 =? 0) then
           if zb val then
-            match min_entry (tm s0) (ntm s0) with
+            match min_entry (tm s0) (tdl s0) (ntm s0) with
             | Some (i, dl) => tick_to dl ;; act (ATFire i) ;; guard (slot s0) ;; act (ATTake i)
             | None => fail end
           else guard (negb (slot s0))
